@@ -17,7 +17,7 @@ func init() {
 		run:       runC09,
 		decided: "R1 setup functions run inside a loop over server blocks nested in a loop over the fixed directive list, parsing callbacks after the inner loop; R2 the parser files tokens under their directive's name by appending copies (never slices aliasing the token array); " +
 			"R3 middleware is wrapped last-to-first around the file server and AddMiddleware appends; R4 the list orders path rewriters before basicauth, basicauth/redir/internal before every content producer, and log/gzip/header/errors before basicauth and the producers; " +
-			"R5 every directive that writes a SiteConfig field precedes every directive that copies it into a handler; R6 every in-repository http directive is listed exactly once. Since round 4: R3 as a table: after AddMiddleware(m0..mk) NewServer stores m0(m1(...(file server))). R7 the lexer counts every line break it consumes (what delimits directive lines). Since round 5: R1 along traces of executeDirectives (order of setup calls and callbacks for two blocks x three directives). R8 the canonical directive list is never modified in place outside RegisterDevDirective (alias analysis of httpserver.directives through ValidDirectives / ServerType.Directives and parameters, against sort/reverse/copy-into/element store/prefix append). Since round 6: R2 is decided by the parser table of C10 R8 (tokens filed under their directive, in order, no shared storage).",
+			"R5 every directive that writes a SiteConfig field precedes every directive that copies it into a handler; R6 every in-repository http directive is listed exactly once. Since round 4: R3 as a table: after AddMiddleware(m0..mk) NewServer stores m0(m1(...(file server))). R7 the lexer counts every line break it consumes (what delimits directive lines). Since round 5: R1 along traces of executeDirectives (order of setup calls and callbacks for two blocks x three directives). R8 the canonical directive list is never modified in place outside RegisterDevDirective (alias analysis of httpserver.directives through ValidDirectives / ServerType.Directives and parameters, against sort/reverse/copy-into/element store/prefix append). Since round 6: R2 is decided by the parser table of C10 R8 (tokens filed under their directive, in order, no shared storage). Since round 8: R8 follows the list through struct fields too (the parser's validDirectives).",
 		notDecided: "response equality under permutation for all requests (a relation between two executions); third-party directives' internals.",
 	})
 }
